@@ -556,7 +556,13 @@ impl SrtlaConnection {
 
     /// Whether this link is eligible for packet scheduling.
     pub fn is_schedulable(&self) -> bool {
-        self.phase.is_schedulable()
+        // A link the receiver rejected (REG_ERR) is disconnected but keeps its
+        // last phase until housekeeping tears it down, and any later datagram
+        // refreshes `last_received`, so neither the phase nor the timeout test
+        // excludes it. The receiver discards data from it; it must not be
+        // scheduled, nor count as the healthy alternative that lets the stall
+        // guard gate the remaining links.
+        self.connected && self.phase.is_schedulable()
     }
 
     /// Scheduling weight contributed by this link's phase
